@@ -132,9 +132,10 @@ type checkRun struct {
 	stats    *engine.Stats
 	extra    map[string]interface{}
 	problems []string // inconclusive reasons
+	staticViol []string // violations found by static obligations (reported as VIOLATION)
 }
 
-var engineOnlyLabels = map[string]bool{"uncaught-panic": true, "use-after-put": true, "pool-double-put": true, "deadlock": true, "unlock-unlocked": true}
+var engineOnlyLabels = map[string]bool{"unbounded-recursion": true, "uncaught-panic": true, "use-after-put": true, "pool-double-put": true, "deadlock": true, "unlock-unlocked": true}
 
 func runCheck(def *CheckDef, flags map[string]string) int {
 	t0 := time.Now()
@@ -176,6 +177,14 @@ func runCheck(def *CheckDef, flags map[string]string) int {
 			}
 		}
 		run.jobs = keep
+	}
+	if tier == "thorough" {
+		engine.RecheckRate = 0.2
+	}
+	if rr := flags["recheck"]; rr != "" {
+		if v, err := strconv.ParseFloat(rr, 64); err == nil {
+			engine.RecheckRate = v
+		}
 	}
 	logDir := flags["smtlog"]
 	res, stats, err := engine.RunJobs(p, run.jobs, nworkers(), backend, true, logDir)
@@ -284,7 +293,7 @@ func runCheck(def *CheckDef, flags map[string]string) int {
 		ok := false
 		for _, l := range c.Labels {
 			if engineOnlyLabels[l] {
-				if l == "uncaught-panic" && (c.Native.Panicked || c.Native.Crashed) {
+				if (l == "uncaught-panic" || l == "unbounded-recursion") && (c.Native.Panicked || c.Native.Crashed) {
 					ok = true
 				}
 				continue
@@ -401,6 +410,8 @@ func runCheck(def *CheckDef, flags map[string]string) int {
 		"stubs":                         def.Stubs,
 		"queries": map[string]interface{}{"total": stats.Queries, "branch": stats.BranchQueries, "assertion": stats.AssertQueries,
 			"sat": stats.Sat, "unsat": stats.Unsat, "unknown": stats.Unknown},
+		"byte_domain": map[string]interface{}{"decisions": stats.DomainDecisions, "rechecked_by_solver": stats.DomainRechecks, "disagreements": stats.DomainDisagreements,
+			"recheck_rate": engine.RecheckRate},
 		"solver":                backend,
 		"solver_s":              stats.SolverTime.Seconds(),
 		"engine_steps":          stats.Steps,
@@ -425,7 +436,14 @@ func runCheck(def *CheckDef, flags map[string]string) int {
 	fmt.Printf("check %s tier=%s: jobs=%d paths=%d (done=%d skipped=%d inconclusive=%d) forks=%d queries=%d solver=%.1fs candidates=%d confirmed=%d known=%d new=%d witnesses=%d/%d wall=%.1fs\n",
 		def.ID, tier, len(run.jobs), paths, done, skipped, aborted, stats.Forks, stats.Queries, stats.SolverTime.Seconds(),
 		len(cands), confirmed, confirmed-len(newViol), len(newViol), validated, len(witnesses), time.Since(t0).Seconds())
-	if len(newViol) > 0 {
+	for i, sv := range run.staticViol {
+		dir := filepath.Join(verifDir(), "replay", def.ID)
+		os.MkdirAll(dir, 0o755)
+		p := filepath.Join(dir, fmt.Sprintf("static-%d.txt", i))
+		os.WriteFile(p, []byte(sv+"\n"), 0o644)
+		fmt.Printf("VIOLATION property=%s replay=%s\n  %s\n", def.ID, p, sv)
+	}
+	if len(newViol) > 0 || len(run.staticViol) > 0 {
 		return 1
 	}
 	if len(run.problems) > 0 {
